@@ -11,6 +11,7 @@ NOT_DECIDED = [
     "depends on C01/C03/C18 for the order and the split",
 ]
 CONFIG_SENSITIVE = False
+DESUGAR = True
 
 BM = "pattern::Pattern::best_match"
 
